@@ -48,6 +48,17 @@ def jobs(tier):
     return js
 
 
+def sys_jobs(hs, tier):
+    q = tier == "quick"
+    sj = [wmmlib.sys_job(hs, "sys", 0, 1, "l1,f0"), wmmlib.sys_job(hs, "sys", 0, 2, "l1,l2,f0,l3"), wmmlib.sys_job(hs, "sys", 0, 1, "f0,l1,f0"),
+          wmmlib.sys_job(hs, "sysbd", 0, 1, "l1,l2,l3,l4,f0"), wmmlib.sys_job(hs, "sysbd", 0, 1, "l1,l2,l3,f0,l4"),
+          wmmlib.sys_job(hs, "sys", 1, 0, "l1,f0", "l1"), wmmlib.sys_job(hs, "sys", 1, 1, "f0", "l1")]
+    if not q:
+        sj += [wmmlib.sys_job(hs, "sys", 0, 2, "l1,l2,l3,l4,f0", deadline=1500), wmmlib.sys_job(hs, "sys", 1, 1, "l1,f0", "l1", deadline=1500),
+               wmmlib.sys_job(hs, "sys", 1, 1, "l1,f0", "f0", deadline=1500), wmmlib.sys_job(hs, "sys", 0, 1, "f0", "l1", deadline=1500)]
+    return sj
+
+
 def run(ctx):
     ctx.rule = ("all schedules up to the preemption bound of: F1 {log.., [idle until written], flush_log(), probe at the instant it "
                 "returns}, F2 (first-time logger) {log..}, optional concurrent flusher, against the backend preemptible before its "
@@ -61,13 +72,7 @@ def run(ctx):
     # backend polls at every atomic operation; at the instant flush_log returns the caller's earlier statements are at the sink;
     # a flush_log that is still waiting after the backend polled on demand is a violation
     hs = wmmlib.build_sys()
-    q = ctx.tier == "quick"
-    sj = [wmmlib.sys_job(hs, "sys", 0, 1, "l1,f0"), wmmlib.sys_job(hs, "sys", 0, 2, "l1,l2,f0,l3"), wmmlib.sys_job(hs, "sys", 0, 1, "f0,l1,f0"),
-          wmmlib.sys_job(hs, "sysbd", 0, 1, "l1,l2,l3,l4,f0"), wmmlib.sys_job(hs, "sysbd", 0, 1, "l1,l2,l3,f0,l4"),
-          wmmlib.sys_job(hs, "sys", 1, 0, "l1,f0", "l1"), wmmlib.sys_job(hs, "sys", 1, 1, "f0", "l1")]
-    if not q:
-        sj += [wmmlib.sys_job(hs, "sys", 0, 2, "l1,l2,l3,l4,f0", deadline=1500), wmmlib.sys_job(hs, "sys", 1, 1, "l1,f0", "l1", deadline=1500),
-               wmmlib.sys_job(hs, "sys", 1, 1, "l1,f0", "f0", deadline=1500), wmmlib.sys_job(hs, "sys", 0, 1, "f0", "l1", deadline=1500)]
+    sj = sys_jobs(hs, ctx.tier)
     wmmlib.run_sys(ctx, sj)
     ctx.rule += ("; whole-system exploration at atomic-operation granularity (Engine A): real registration, log calls and flush_log of one or two "
                  "threads against real backend polls, all interleavings and C++11-admissible load values")
